@@ -113,6 +113,15 @@ Proof.
   - exact (oneway_completes_only_what_was_written cs chan sched c Hw).
 Qed.
 
+(* ... stated over whole histories: as long as nobody uses SendRaw (whose callers choose their own sequence numbers - the
+   one-way path completes whatever stands under its number, see a_reused_number_inherits_the_oneway_result), in every
+   reachable state a call that was given the one-way result is a call whose own frame the transport accepted. *)
+Theorem C05_oneway_success_was_written : forall cs chan sched c x r,
+  wf_init cs -> Forall (fun x => c_kind x <> KRaw) cs ->
+  nth_error (calls (run (init cs chan) sched)) c = Some x -> In (ByOneway, r) (c_signals x) ->
+  In c (wire_out (run (init cs chan) sched)).
+Proof. exact oneway_success_was_written. Qed.
+
 Example C05_outcome_nonvacuous :
   let cs := [new_call KGo true 0; new_call KGo true 0; new_call KCall false 0] in
   map (fun x => c_signals x)
@@ -130,3 +139,4 @@ Print Assumptions C05_no_call_is_left_in_the_table_of_a_client_that_shut_down.
 Print Assumptions C05_outcomes_fit_their_cause.
 Print Assumptions C05_success_has_its_own_answer.
 Print Assumptions C05_oneway_success_only_after_the_write.
+Print Assumptions C05_oneway_success_was_written.
